@@ -1,4 +1,5 @@
-/- REGENERATED on every run by harness/props/c08.py from sequence/align/tracetable.pxd and pairwise.pyx. Do not edit. -/
+/- REGENERATED on every run by harness/props/c08.py from sequence/align/{tracetable.pxd, tracetable.pyx, pairwise.pyx,
+   alignment.py, matrix.py}. Do not edit. -/
 namespace BiotiteModel.Gen.C08
 /-- `TraceDirectionLinear` members: (name, bit value). -/
 def traceLinear : List (String × Nat) := [("MATCH", 1), ("GAP_LEFT", 2), ("GAP_TOP", 4)]
@@ -8,4 +9,101 @@ def traceAffine : List (String × Nat) := [("MATCH_TO_MATCH", 1), ("GAP_LEFT_TO_
 def traceState : List (String × Nat) := [("NO_STATE", 0), ("MATCH_STATE", 1), ("GAP_LEFT_STATE", 2), ("GAP_TOP_STATE", 3)]
 /-- bit width of the `trace_table` dtype in `align_optimal`. -/
 def traceTableBits : Nat := 8
+/-- keyword defaults of `align_optimal` -/
+def defaultsAlignOptimal : List (String × String) := [("gap_penalty", "-10"), ("terminal_penalty", "True"), ("local", "False"), ("max_number", "1000")]
+/-- keyword defaults of `align_ungapped` -/
+def defaultsAlignUngapped : List (String × String) := [("score_only", "False")]
+/-- keyword defaults of `align.score` -/
+def defaultsScore : List (String × String) := [("gap_penalty", "-10"), ("terminal_penalty", "True")]
+/-- argument checks of `align_optimal` in source order: (condition, exception class) -/
+def argChecks : List (String × String) := [("not matrix.get_alphabet1().extends(seq1.get_alphabet()) or not matrix.get_alphabet2().extends(seq2.get_alphabet())", "ValueError"), ("gap_penalty > 0", "ValueError"), ("gap_penalty[0] > 0 or gap_penalty[1] > 0", "ValueError"), ("else", "TypeError"), ("max_number < 1", "ValueError")]
+/-- how linear / affine penalties are told apart -/
+def gapKindTests : List String := ["if type(gap_penalty) == int:", "elif type(gap_penalty) == tuple:"]
+/-- table allocations (shape, fill value, dtype) -/
+def alloc : List String := ["trace_table = np.zeros(( len(seq1)+1, len(seq2)+1 ), dtype=np.uint8)", "m_table = np.zeros((len(seq1)+1, len(seq2)+1), dtype=np.int32)", "g1_table = np.full((len(seq1)+1, len(seq2)+1), neg_inf, dtype=np.int32)", "g2_table = np.full((len(seq1)+1, len(seq2)+1), neg_inf, dtype=np.int32)", "score_table = np.zeros(( len(seq1)+1, len(seq2)+1 ), dtype=np.int32)"]
+/-- the pseudo minus infinity -/
+def negInf : List String := ["neg_inf = np.iinfo(np.int32).min - gap_open - gap_ext", "neg_inf -= min_score", "min_score = np.min(matrix.score_matrix())", "if min_score < 0:"]
+/-- first row / column initialisation statements in source order -/
+def tableInit : List String := ["m_table [0, 1:] = neg_inf", "m_table [1:, 0] = neg_inf", "g1_table[0, 1:] = (np.arange(len(seq2)) * gap_ext) + gap_open", "g2_table[1:, 0] = (np.arange(len(seq1)) * gap_ext) + gap_open", "g1_table[0, 1:] = np.zeros(len(seq2))", "g2_table[1:, 0] = np.zeros(len(seq1))", "trace_table[0, 1] = TraceDirectionAffine.MATCH_TO_GAP_LEFT", "trace_table[0, 2:] = TraceDirectionAffine.GAP_LEFT_TO_GAP_LEFT", "trace_table[1, 0] = TraceDirectionAffine.MATCH_TO_GAP_TOP", "trace_table[2: ,0] = TraceDirectionAffine.GAP_TOP_TO_GAP_TOP", "g1_table[0, 1:] = np.zeros(len(seq2))", "g2_table[1:, 0] = np.zeros(len(seq1))", "score_table[:,0] = np.arange(len(seq1)+1) * gap_penalty", "score_table[0,:] = np.arange(len(seq2)+1) * gap_penalty", "trace_table[1:,0] = TraceDirectionLinear.GAP_TOP", "trace_table[0,1:] = TraceDirectionLinear.GAP_LEFT", "g1_table[i_start,j_start],", "g2_table[i_start,j_start])"]
+/-- start cells / states of the traceback -/
+def startSelection : List String := ["state_list = np.zeros(0, dtype=int)", "max_score = np.max(m_table)", "i_list, j_list = np.where((m_table == max_score))", "state_list = np.append(state_list, np.full(len(i_list), 1))", "max_score = np.max(score_table)", "i_list, j_list = np.where((score_table == max_score))", "state_list = np.zeros(len(i_list), dtype=int)", "i_start = trace_table.shape[0] -1", "j_start = trace_table.shape[1] -1", "max_score = max(m_table[i_start,j_start],", "if m_table[i_start,j_start] == max_score:", "state_list = np.append(state_list, 1)", "if g1_table[i_start,j_start] == max_score:", "state_list = np.append(state_list, 2)", "if g2_table[i_start,j_start] == max_score:", "state_list = np.append(state_list, 3)", "state_list = np.append(state_list, 0)", "max_score = score_table[i_start,j_start]", "i_start = i_list[k]", "j_start = j_list[k]"]
+/-- counter start, follow_trace arguments, final truncation -/
+def tracebackCalls : List String := ["trace = np.full(( i_start+1 + j_start+1, 2 ), -1, dtype=np.int64)", "curr_trace_count = 1", "trace_table, False, i_start, j_start, 0, trace, trace_list,", "state=state_start, curr_trace_count=&curr_trace_count,", "max_trace_count=max_number,", "trace_list = trace_list[:max_number]"]
+/-- loop domains of `_fill_align_table` -/
+def fillLinLoops : List (String × String × String × String) := [("i", "1", "score_table", "0"), ("j", "1", "score_table", "1")]
+/-- last row / column -/
+def fillLinMax : List String := ["i_max = score_table.shape[0] -1", "j_max = score_table.shape[1] -1"]
+/-- (candidate, table, di, dj, addend, governing condition) -/
+def fillLinCands : List (String × String × Int × Int × String × String) := [("from_diag", "score_table", (-1), (-1), "matrix[code1[i-1], code2[j-1]]", ""), ("from_left", "score_table", 0, (-1), "", "not term_penalty and i == i_max"), ("from_left", "score_table", 0, (-1), "gap_penalty", "else"), ("from_top", "score_table", (-1), 0, "", "not term_penalty and j == j_max"), ("from_top", "score_table", (-1), 0, "gap_penalty", "else")]
+/-- local: penalties forced on, floor at zero -/
+def fillLinFloor : List String := ["if local:", "term_penalty = True", "if local == True and score <= 0:", "continue"]
+/-- call of get_trace_linear and the stores -/
+def fillLinStore : List String := ["trace = get_trace_linear(from_diag, from_left, from_top, &score)", "score_table[i,j] = score", "trace_table[i,j] = trace"]
+/-- loop domains of `_fill_align_table_affine` -/
+def fillAffLoops : List (String × String × String × String) := [("i", "1", "trace_table", "0"), ("j", "1", "trace_table", "1")]
+/-- last row / column -/
+def fillAffMax : List String := ["i_max = trace_table.shape[0] -1", "j_max = trace_table.shape[1] -1"]
+/-- (candidate, table, di, dj, addend, governing condition) -/
+def fillAffCands : List (String × String × Int × Int × String × String) := [("mm_score", "m_table", (-1), (-1), "similarity_score", ""), ("g1m_score", "g1_table", (-1), (-1), "similarity_score", ""), ("g2m_score", "g2_table", (-1), (-1), "similarity_score", ""), ("mg1_score", "m_table", 0, (-1), "", "not term_penalty and i == i_max"), ("g1g1_score", "g1_table", 0, (-1), "", "not term_penalty and i == i_max"), ("mg1_score", "m_table", 0, (-1), "gap_open", "else"), ("g1g1_score", "g1_table", 0, (-1), "gap_ext", "else"), ("mg2_score", "m_table", (-1), 0, "", "not term_penalty and j == j_max"), ("g2g2_score", "g2_table", (-1), 0, "", "not term_penalty and j == j_max"), ("mg2_score", "m_table", (-1), 0, "gap_open", "else"), ("g2g2_score", "g2_table", (-1), 0, "gap_ext", "else")]
+/-- similarity lookup -/
+def fillAffSim : List String := ["similarity_score = matrix[code1[i-1], code2[j-1]]"]
+/-- local floors: (score, operator, bound, cleared trace bits) -/
+def fillAffFloors : List (String × String × String × List String) := [("m_score", "<=", "0", ["MATCH_TO_MATCH", "GAP_LEFT_TO_MATCH", "GAP_TOP_TO_MATCH"]), ("g1_score", "<=", "0", ["MATCH_TO_GAP_LEFT", "GAP_LEFT_TO_GAP_LEFT"]), ("g2_score", "<=", "0", ["MATCH_TO_GAP_TOP", "GAP_TOP_TO_GAP_TOP"])]
+/-- arguments of get_trace_affine and the stores -/
+def fillAffStore : List String := ["mm_score, g1m_score, g2m_score,", "mg1_score, g1g1_score,", "mg2_score, g2g2_score,", "&m_score, &g1_score, &g2_score", "m_table[i,j] = m_score", "g1_table[i,j] = g1_score", "g2_table[i,j] = g2_score", "m_table[i,j] = m_score", "g1_table[i,j] = g1_score", "g2_table[i,j] = g2_score", "trace_table[i,j] = trace"]
+/-- predecessor indices in follow_trace (banded, plain, banded, plain) -/
+def followPred : List String := ["i_match, i_gap_left, i_gap_top = i-1, i, i-1", "j_match, j_gap_left, j_gap_top = j , j-1, j+1", "i_match, i_gap_left, i_gap_top = i-1, i, i-1", "j_match, j_gap_left, j_gap_top = j-1, j-1, j", "i_match, i_gap_left, i_gap_top = i-1, i, i-1", "j_match, j_gap_left, j_gap_top = j , j-1, j+1", "i_match, i_gap_left, i_gap_top = i-1, i, i-1", "j_match, j_gap_left, j_gap_top = j-1, j-1, j"]
+/-- sequence indices written into the trace -/
+def followSeqIdx : List String := ["seq_i = i - 1", "seq_j = j + seq_i + lower_diag - 1", "seq_i = i - 1", "seq_j = j - 1", "seq_i = i - 1", "seq_j = j + seq_i + lower_diag - 1", "seq_i = i - 1", "seq_j = j - 1"]
+/-- order in which the linear trace bits are examined -/
+def followLinDirs : List (String × String × String) := [("MATCH", "i_match", "j_match"), ("GAP_LEFT", "i_gap_left", "j_gap_left"), ("GAP_TOP", "i_gap_top", "j_gap_top")]
+/-- order of the affine transitions: (bit, i, j, next state) -/
+def followAffDirs : List (String × String × String × String) := [("MATCH_TO_MATCH", "i_match", "j_match", "MATCH_STATE"), ("GAP_LEFT_TO_MATCH", "i_match", "j_match", "GAP_LEFT_STATE"), ("GAP_TOP_TO_MATCH", "i_match", "j_match", "GAP_TOP_STATE"), ("MATCH_TO_GAP_LEFT", "i_gap_left", "j_gap_left", "MATCH_STATE"), ("GAP_LEFT_TO_GAP_LEFT", "i_gap_left", "j_gap_left", "GAP_LEFT_STATE"), ("MATCH_TO_GAP_TOP", "i_gap_top", "j_gap_top", "MATCH_STATE"), ("GAP_TOP_TO_GAP_TOP", "i_gap_top", "j_gap_top", "GAP_TOP_STATE")]
+/-- loop / branching / counter statements of follow_trace -/
+def followBranch : List String := ["while trace_table[i,j] != 0:", "trace[pos, 0] = seq_i", "trace[pos, 1] = seq_j", "pos += 1", "for k in range(1, len(next_indices)):", "if curr_trace_count[0] < max_trace_count:", "curr_trace_count[0] += 1", "new_i, new_j = next_indices[k]", "i, j = next_indices[0]", "trace[pos, 0] = seq_i", "trace[pos, 1] = seq_j", "pos += 1", "for k in range(1, len(next_indices)):", "if curr_trace_count[0] < max_trace_count:", "curr_trace_count[0] += 1", "new_i, new_j = next_indices[k]", "new_state = next_states[k]", "i, j = next_indices[0]", "state = next_states[0]"]
+/-- bits examined in MATCH / GAP_LEFT / GAP_TOP state -/
+def followStateMasks : List (List String) := [["MATCH_TO_MATCH", "GAP_LEFT_TO_MATCH", "GAP_TOP_TO_MATCH"], ["MATCH_TO_GAP_LEFT", "GAP_LEFT_TO_GAP_LEFT"], ["MATCH_TO_GAP_TOP", "GAP_TOP_TO_GAP_TOP"]]
+/-- `if` tests of align.score in ast order -/
+def scoreIfs : List String := ["isinstance(gap_penalty, numbers.Real)", "isinstance(gap_penalty, Sequence)", "terminal_penalty", "seq_code[i] == -1", "code_i != -1 and code_j != -1", "in_gap"]
+/-- `score += …` statements -/
+def scoreAugAssign : List (String × String × String) := [("score", "Add", "matrix[code_i, code_j]"), ("score", "Add", "gap_ext"), ("score", "Add", "gap_open")]
+/-- gap_open / gap_ext / in_gap / slice assignments -/
+def scoreAssign : List String := ["gap_open = gap_penalty", "gap_ext = gap_penalty", "in_gap = False", "gap_open = gap_penalty[0]", "gap_ext = gap_penalty[1]", "start_index = 0", "stop_index = len(seq_code)", "in_gap = True", "in_gap = False", "start_index, stop_index = find_terminal_gaps(alignment)"]
+/-- exception classes raised by align.score -/
+def scoreRaises : List String := ["TypeError"]
+/-- `return` of find_terminal_gaps -/
+def ftgReturn : List String := ["(np.max(firsts).item(), np.min(lasts).item() + 1)"]
+/-- assignments of find_terminal_gaps -/
+def ftgAssign : List String := ["trace = alignment.trace", "no_gap_pos = [np.where(trace[:, i] != -1)[0] for i in range(trace.shape[1])]", "firsts = [pos[0] if len(pos) > 0 else trace.shape[0] for pos in no_gap_pos]", "lasts = [pos[-1] if len(pos) > 0 else -1 for pos in no_gap_pos]"]
+/-- assignments of get_codes -/
+def getCodesAssign : List String := ["trace = alignment.trace", "sequences = alignment.sequences", "codes = np.zeros((trace.shape[1], trace.shape[0]), dtype=np.int64)", "no_gap = trace[:, i] != -1", "codes[i] = np.int64(-1)", "codes[i, no_gap] = sequences[i].code[trace[no_gap, i]]"]
+/-- `if` tests of SubstitutionMatrix.__init__ -/
+def matrixInitTests : List String := ["isinstance(score_matrix, dict)", "isinstance(score_matrix, np.ndarray)", "score_matrix.shape != alph_shape", "not np.issubdtype(score_matrix.dtype, np.integer)", "np.any(self._matrix == np.iinfo(np.int32).max) or np.any(self._matrix == np.iinfo(np.int32).min)", "isinstance(score_matrix, str)"]
+/-- exception classes of SubstitutionMatrix.__init__ -/
+def matrixInitRaises : List String := ["ValueError", "TypeError", "ValueError", "TypeError"]
+/-- dtype conversion of the score matrix -/
+def matrixAstype : List String := ["self._matrix = score_matrix.astype(np.int32)"]
+/-- _fill_with_matrix_dict, statement by statement -/
+def matrixFillDict : List String := ["self._matrix = np.zeros((len(self._alph1), len(self._alph2)), dtype=np.int32)", "for i in range(len(self._alph1)):
+    for j in range(len(self._alph2)):
+        sym1 = self._alph1.decode(i)
+        sym2 = self._alph2.decode(j)
+        self._matrix[i, j] = int(matrix_dict[sym1, sym2])"]
+/-- dict_from_str, statement by statement -/
+def matrixDictFromStr : List String := ["lines = [line.strip() for line in string.split('\\n')]", "lines = [line for line in lines if len(line) != 0 and line[0] != '#']", "symbols1 = [line.split()[0] for line in lines[1:]]", "symbols2 = [e for e in lines[0].split()]", "scores = np.array([line.split()[1:] for line in lines[1:]]).astype(int)", "matrix_dict = {}", "for i in range(len(symbols1)):
+    for j in range(len(symbols2)):
+        matrix_dict[symbols1[i], symbols2[j]] = scores[i, j]", "return matrix_dict"]
+/-- `get_trace_linear`, transliterated from tracetable.pyx: (trace bits, maximum). -/
+def getTraceLinear (match_score gap_left_score gap_top_score : Int) : Nat × Int :=
+  (if match_score > gap_left_score then (if match_score > gap_top_score then ((1 : Nat), match_score) else (if match_score = gap_top_score then ((5 : Nat), match_score) else ((4 : Nat), gap_top_score))) else (if match_score = gap_left_score then (if match_score > gap_top_score then ((3 : Nat), match_score) else (if match_score = gap_top_score then ((7 : Nat), match_score) else ((4 : Nat), gap_top_score))) else (if gap_left_score > gap_top_score then ((2 : Nat), gap_left_score) else (if gap_left_score = gap_top_score then ((6 : Nat), gap_left_score) else ((4 : Nat), gap_top_score)))))
+/-- `get_trace_affine`, transliterated: the three decision trees (match, gap-left, gap-top table):
+(bits contributed, maximum written to max_match_score[0], max_gap_left_score[0], max_gap_top_score[0]). -/
+def getTraceAffineM (match_to_match_score gap_left_to_match_score gap_top_to_match_score match_to_gap_left_score gap_left_to_gap_left_score match_to_gap_top_score gap_top_to_gap_top_score : Int) : Nat × Int :=
+  (if match_to_match_score > gap_left_to_match_score then (if match_to_match_score > gap_top_to_match_score then ((1 : Nat), match_to_match_score) else (if match_to_match_score = gap_top_to_match_score then ((5 : Nat), match_to_match_score) else ((4 : Nat), gap_top_to_match_score))) else (if match_to_match_score = gap_left_to_match_score then (if match_to_match_score > gap_top_to_match_score then ((3 : Nat), match_to_match_score) else (if match_to_match_score = gap_top_to_match_score then ((7 : Nat), match_to_match_score) else ((4 : Nat), gap_top_to_match_score))) else (if gap_left_to_match_score > gap_top_to_match_score then ((2 : Nat), gap_left_to_match_score) else (if gap_left_to_match_score = gap_top_to_match_score then ((6 : Nat), gap_left_to_match_score) else ((4 : Nat), gap_top_to_match_score)))))
+def getTraceAffineG1 (match_to_match_score gap_left_to_match_score gap_top_to_match_score match_to_gap_left_score gap_left_to_gap_left_score match_to_gap_top_score gap_top_to_gap_top_score : Int) : Nat × Int :=
+  (if match_to_gap_left_score > gap_left_to_gap_left_score then ((8 : Nat), match_to_gap_left_score) else (if match_to_gap_left_score < gap_left_to_gap_left_score then ((16 : Nat), gap_left_to_gap_left_score) else ((24 : Nat), match_to_gap_left_score)))
+def getTraceAffineG2 (match_to_match_score gap_left_to_match_score gap_top_to_match_score match_to_gap_left_score gap_left_to_gap_left_score match_to_gap_top_score gap_top_to_gap_top_score : Int) : Nat × Int :=
+  (if match_to_gap_top_score > gap_top_to_gap_top_score then ((32 : Nat), match_to_gap_top_score) else (if match_to_gap_top_score < gap_top_to_gap_top_score then ((64 : Nat), gap_top_to_gap_top_score) else ((96 : Nat), gap_top_to_gap_top_score)))
+/-- the output slots of `get_trace_affine` in the order the trees write them -/
+def getTraceAffineTargets : List String := ["max_match_score[0]", "max_gap_left_score[0]", "max_gap_top_score[0]"]
 end BiotiteModel.Gen.C08
